@@ -1862,6 +1862,19 @@ class NPProxy:
             def w(a, *args, **kw):
                 if isinstance(a, (list, tuple)) and _contains_sym(a):
                     a = as_symarray(a)
+                if isinstance(a, NZ) and n in ('any', 'all') and not args and not kw:
+                    # truth value of the index array np.where(mask)[axis]: "some / every selected element has a non-zero index"
+                    m = a.mask._a if isinstance(a.mask, SymArray) else np.asarray(a.mask)
+                    acc = (n == 'all')
+                    for idx in np.ndindex(*m.shape):
+                        sel = m[idx]
+                        nz = idx[a.axis % m.ndim] != 0
+                        if n == 'any':
+                            if nz:
+                                acc = sor(acc, sel)
+                        elif not nz:
+                            acc = sand(acc, snot(sel))
+                    return acc
                 return f(a, *args, **kw)
             return w
         return f
@@ -1884,6 +1897,8 @@ class NPProxy:
 
     @staticmethod
     def _mk(a):
+        if a.dtype.kind in 'USMm':          # strings / dates carry no symbolic data: plain numpy arrays
+            return a
         return SymArray(a, kind_of_dtype(a.dtype))
 
     def zeros(self, shape, dtype=float, **k):
